@@ -1,7 +1,7 @@
 """C11 - the requested opset is honoured.
 
-Enumerated: every corpus program x every target opset in 21..newest (quick: {21, 24, newest} plus the
-testcase's own opset as baseline).  Per export: declared default-domain import equals the request; every node
+Enumerated: every corpus program x every target opset in 21..newest (quick: all opsets for one variant per
+testcase, {21, newest} for its _dynamic/_f64 siblings) plus the testcase's own opset as baseline.  Per export: declared default-domain import equals the request; every node
 in every scope (recursively, function bodies included) has an ONNX schema at that opset admitting its
 input/output arity and attribute names (nothing newer); onnx.checker; ORT load where ORT supports that
 opset (its own limitations are triaged by message), outputs equal to the baseline-opset export on a
@@ -160,7 +160,7 @@ def main(tier: str) -> int:
     import onnx
     run = Run(PROP, tier)
     newest = onnx.defs.onnx_opset_version()
-    opsets = [21, 24, newest] if tier == "quick" else list(range(21, newest + 1))
+    opsets = list(range(21, newest + 1))
     run.cov["opsets"] = opsets
     run.cov["rule"] = ("every corpus program x every enumerated target opset through the real to_onnx; state = digest of "
                        "the exported model; transition = one export; non-trivial = program whose operator "
@@ -169,12 +169,20 @@ def main(tier: str) -> int:
                         "ORT executes opsets it supports; otherwise the ONNX reference evaluator; numeric agreement "
                         "across opsets judged at rtol 1e-4 (different but equivalent lowerings)"]
     if tier == "quick":
-        run.cap("quick: opsets {21, 24, newest} (all of 21..newest in thorough); heavy examples excluded")
+        run.cap("quick: all opsets 21..newest for one variant per testcase, {21, newest} for its _dynamic/_f64 siblings; heavy examples excluded")
     stats = {"exports": 0, "refused": 0, "unrunnable": 0, "compared": 0}
     with Pool(init=("mc.runners", "warm_export"), job_timeout=400) as pool:
         pids = pool.map("mc.corpus", "pids_job", [tier])[0]
         run.cov["programs"] = len(pids)
-        jobs = [{"pid": p, "opsets": opsets} for p in pids]
+        if tier == "quick":
+            # every opset for one variant of each testcase; the _dynamic / _f64 siblings (same lowering choices) only at the
+            # oldest and newest opset.  thorough: every opset for every variant.
+            def _sibling(q: str) -> bool:
+                leaf = q.split("/")[-1]
+                return leaf.endswith("_f64") or "_dynamic" in leaf
+            jobs = [{"pid": p, "opsets": ([21, newest] if _sibling(p) else opsets)} for p in pids]
+        else:
+            jobs = [{"pid": p, "opsets": opsets} for p in pids]
         for _i, p, r in pool.imap("checks.c11", "job", jobs):
             if is_worker_failure(r):
                 run.harness_error(f"{p['pid']}: {r.get('_worker')} {r.get('msg', '')[:150]}")
